@@ -113,7 +113,7 @@ class ScriptedGenerator(SproutCandidatesGenerator):
                     cands = sorted(deme.current_population, reverse=True)
                     # distinct genomes only
                     seen, pick = set(), []
-                    for i in cands:
+                    for i in (cands if n > 0 else []):
                         k = i.genome.tobytes()
                         if k not in seen:
                             seen.add(k)
